@@ -15,13 +15,16 @@ CHECKS = {
         design_ref="DESIGN.md §4 C01",
         note="Trusted: z3, CPython, forksym proxies and ReShim (every path's model is replayed on the unshimmed code with the real "
              "UploadFile and must agree). Content bytes are solver variables (<=3 quick / <=5 thorough per form); form templates, "
-             "boundaries, part names and cut positions are enumerated recipes; framing uses CRLF; field text is ASCII."),
+             "boundaries, part names and cut positions are enumerated recipes (incl. multi-byte field text, names with Unicode separators, bare-LF/CR "
+             "framing, 40 blanks of transport padding); the stream helpers also get symbolic limits at or above the form's totals."),
     "C02": dict(
         technique="fork-on-branch symbolic execution of the real WSGI/ASGI FileResponse (incl. zero-copy branch) on a symbolic file: size, chunk size and all Range numbers are z3 integers",
         design_ref="DESIGN.md §4 C02",
         note="Trusted: z3, CPython, forksym proxies; the file is an uninterpreted array (reads return (offset,length) slices; no short reads). "
              "Family 'data': all numbers unbounded, <=2/<=3 range specs, chunk loops unwound K=3/4 with unwinding assertion. Family 'framing': "
-             "multipart Content-Length digit-exact for sizes <10^4 / <10^6. Every path's model is re-run on a real temp file with the unshimmed code."),
+             "multipart Content-Length digit-exact for sizes <10^4 / <10^6. Recipes: a response object reused for a second request, a subclass overriding "
+             "generate_etag, fractional mtimes, concrete 20-digit / zero-padded header texts through the real regex. Every path's model is re-run on a "
+             "real temp file with the unshimmed code."),
     "C04": dict(
         technique="differential fork-on-branch symbolic execution: the WSGI and the ASGI implementation run on the same symbolic data on one path and their normalised observations are compared by z3 queries",
         design_ref="DESIGN.md §4 C04",
@@ -29,26 +32,30 @@ CHECKS = {
              "non-file response classes, FileResponse on the symbolic file (numbers unbounded, <=2 range specs, raw Range text <=4/<=6 chars), streams run to "
              "completion, header-derived request attributes (values <=2/<=3 Latin-1 chars; names from a recipe list), request bodies (<=3 chunks, "
              "symbolic emptiness), Router/Subpaths/Hosts/Files/Pages/conditional requests. Abstract requests have one value per header name; URL/query "
-             "parsing uses concrete recipes."),
+             "parsing uses concrete recipes; forms with 323/324/325 parts and JSON with a byte order mark are concrete differential recipes."),
     "C05": dict(
         technique="fork-on-branch symbolic execution of every response class on both interfaces against a scripted server with a protocol monitor: status, header/cookie/body/download-name characters and the FAULT POINT (failing send call, raising producer step, early close) are solver variables",
         design_ref="DESIGN.md §4 C05",
         note="Trusted: z3, CPython/asyncio (streaming classes on the virtual loop), forksym/ReShim, the protocol monitor in harness/gw.py. Constructor "
              "header values are assumed printable Latin-1, cookie values Latin-1; download names and redirect targets full Unicode (no lone surrogates). "
-             "Texts <=2/<=3 chars, streams <=2/<=3 items. WSGI SendEventResponse only for complete runs (threads: see C06)."),
+             "Texts <=2/<=3 chars (cookie values <=2), streams <=2/<=3 items; also a response object serving a second client after a disconnect, a receive "
+             "channel that raises, redirect targets as URL objects, and static apps on real files whose file vanishes at a solver-chosen point. "
+             "WSGI SendEventResponse only for complete runs (threads: see C06)."),
     "C06": dict(
         technique="fork-on-branch symbolic execution of the real ASGI streaming responses on a virtual-time asyncio loop: producer/send delays, ping interval and disconnect instant are z3 integers, timer order decided by the solver; sequential WSGI streaming with symbolic close/raise points",
         design_ref="DESIGN.md §4 C06",
         note="PARTIAL CLAIM: the WSGI SendEventResponse relay (real pool thread + queue.Queue) is NOT covered - thread interleavings are not solver "
              "variables (the early-close deadlock the property text describes lives there). Covered: ASGI StreamResponse/SendEventResponse "
              "(1 item general, 3 items with a zero-delay producer; thorough: 2 items + trailing producer delay), WSGI StreamResponse/NextResponse. "
+             "Also: pacing on an 8-item backlog, a field-less event mid-stream, a producer object with aclose(). "
              "asyncio's own scheduler code runs for real on a virtual clock; ticks bounded (delays 0..20, ping 1..20, disconnect 0..60)."),
     "C07": dict(
         technique="fork-on-branch symbolic execution of the real static-file path arithmetic and Files/Pages dispatch over a fully symbolic request path (vendored posixpath on proxies, virtual stat tree), against an independently written segment-stack resolver executed symbolically on the same path",
         design_ref="DESIGN.md §4 C07",
         note="Trusted: z3, CPython, forksym; the vendored posixpath and the virtual tree are validated on every path by re-running the unshimmed "
-             "code on real files in a temp directory. Confinement is lexical (no symlinks); one fixed tree with '..name', an index-less directory, "
-             "a sibling whose name extends the directory's and '<dir>.html'. Paths: <=5/<=7 free chars plus '/../'+<=6, <=3+'/index.html', <=4+'.html'. "
+             "code on real files in a temp directory. One fixed tree with '..name', an index-less directory, a sibling whose name extends the "
+             "directory's, '<dir>.html', a unix socket and a symbolic link to an empty directory outside; directory given absolute or relative with a "
+             "later chdir; Pages also mounted below a prefix. Paths: <=5/<=7 free chars plus '/../'+<=6, <=3+'/index.html', <=4+'.html'. "
              "'<file>/' may be served or 404 (the statement allows both)."),
     "C08": dict(
         technique="z3 regex-language lemmas on the live convertor patterns; fork-on-branch symbolic execution of the real Route/Router over fully symbolic paths (ReShim) against a first-match oracle built from the statement's type languages; decided arithmetic for int/date/decimal conversion and round trip",
@@ -61,61 +68,70 @@ CHECKS = {
         technique="fork-on-branch symbolic execution of the real Subpaths/Hosts dispatch over symbolic characters (z3), oracle as z3 formulas / z3 regex-language membership",
         design_ref="DESIGN.md §4 C09",
         note="Trusted: z3 (incl. its sequence/regex theory for the host oracle), CPython, forksym + ReShim. String lengths, table sizes (2 entries), "
-             "nesting depth and the host pattern tables are enumerated; all characters are solver variables (paths full Unicode, Host Latin-1)."),
+             "nesting depth and the host pattern tables (8, incl. capturing groups) are enumerated; all characters are solver variables (paths full Unicode, "
+             "Host Latin-1; Host may be empty or absent). Mount jobs also run after an earlier request on the same routing object."),
     "C10": dict(
         technique="fork-on-branch symbolic execution of the real ASGI Request accessors on a virtual-time asyncio loop (message count, empty messages, disconnect position, receive delays and task start offsets decided by z3) and of the WSGI accessors with a symbolic chunk count",
         design_ref="DESIGN.md §4 C10",
         note="Trusted: z3, CPython/asyncio (real scheduler on a virtual clock), forksym. Body bytes are fixed order-revealing markers (the "
              "accessors never inspect them); <=3 messages, delays 0..30 ticks, 2 (quick) / 3 (thorough) concurrent awaiters; access programs "
-             "are an enumerated list over body/stream/json/form/close."),
+             "are an enumerated list over body/stream/json/form/close, plus two concurrent readers, a multipart form over several messages, small-chunk "
+             "replay, and is_disconnected() polled while no message is ready (sub-tick timeout modelled as half a tick)."),
     "C11": dict(
         technique="fork-on-branch symbolic execution of the real WebSocket wrapper: one inductive step from every (client,application) state pair plus bounded histories, state/call/event choices decided by z3, payloads symbolic",
         design_ref="DESIGN.md §4 C11",
         note="Trusted: z3, CPython, forksym. Step family assumes the invariant tying the two state fields to what was forwarded/delivered "
              "(all 9 pairs are reachable through raw receive()/send(); each counterexample is confirmed by such a public-API history). "
-             "Histories from the initial state: <=3 / <=4 calls, <=2 / <=3 frames. Server send() never fails."),
+             "Histories from the initial state: <=3 / <=4 calls, <=2 / <=3 frames. Server send() never fails. Beyond sequences: five two-task programs on "
+             "the virtual loop (suspending server send), an iterator resumed after close, the websocket_session shortcut with failing views."),
     "C13": dict(
         technique="fork-on-branch symbolic execution of the real header mapping (one inductive step per mutator), cookie escaper (live translation table as ITE terms, live regex via ReShim) and redirect encoding over symbolic Unicode characters; z3 decides every character",
         design_ref="DESIGN.md §4 C13",
         note="Trusted: z3, CPython, forksym/ReShim. Header family: pre-state = clean mapping with 0..1 symbolic entries (induction hypothesis), "
              "names/values <=2/<=3 chars. Cookie names <=2/<=3, values <=3/<=4 chars, full Unicode. Redirect: urllib.parse.quote is replaced by a "
-             "percent-encoding model that takes baize's real `safe` argument and is validated against the real quote on every path."),
+             "percent-encoding model that takes baize's real `safe` argument and is validated against the real quote on every path; targets as str and "
+             "as URL object. update() with Headers objects, re-assigned cookie attributes and delete_cookie(name) are covered."),
     "C14": dict(
         technique="fork-on-branch symbolic execution of the real Files/Pages conditional-request path over histories on a symbolic file clock: creation/modification/request instants (ms) and sizes are z3 integers, validators flow between requests as canonical tokens",
         design_ref="DESIGN.md §4 C14",
         note="Trusted: z3, CPython, forksym; formatdate/parsedate are replaced by an inverse pair at one-second granularity, SHA-1 is the real one on "
              "canonical token text (collision freedom assumed); every path's model is replayed on real files with an emulated stat clock. Histories "
              "R0;op;R1 (thorough: two ops, validators from either earlier response); ops none/touch/rewrite same size/rewrite other size/replace keeping "
-             "an older mtime; 11 validator forms. One known finding (date-only validator, same-second rewrite) is listed in known_findings.json."),
+             "an older mtime; 13 validator forms; the process time zone is a solver variable behind parsedate/mktime stand-ins; SHA-1 input with two rendered "
+             "numbers back to back is reported as unsupported (token abstraction). One known finding (date-only validator, same-second rewrite) is listed in known_findings.json."),
     "C15": dict(
         technique="fork-on-branch symbolic execution of the real multipart stream helpers with SYMBOLIC limits (all limit values decided at once per form/chunking) and of the decoder's hold-back on symbolic part content, z3",
         design_ref="DESIGN.md §4 C15",
         note="Trusted: z3, CPython, forksym/ReShim (each path replayed on the unshimmed code). Forms (part kinds/sizes) and chunkings are enumerated; "
              "both limits are unbounded z3 integers (memory limit also None). Buffer family: 1-2 (3) leading bytes over 0..255, then 14 (24) symbolic "
-             "non-line-break bytes, chunk sizes 1/5 (1/3/8), also with the boundary text mentioned inside the content; bound = chunk + delimiter + 4."),
+             "non-line-break bytes, chunk sizes 1/5 (1/3/8), also with the boundary text mentioned inside the content and delimiter look-alike lines; "
+             "bound = chunk + delimiter + 4. One known finding (blanks after a look-alike are held back) is listed in known_findings.json."),
     "C16": dict(
         technique="fork-on-branch symbolic execution: response-side cookie quoting fed into the real request-side parser (incl. stdlib _unquote run on proxies) over all 0..255 value characters; expiry with symbolic now/expires/max-age and a symbolic UTC offset",
         design_ref="DESIGN.md §4 C16",
         note="Trusted: z3, CPython, forksym/ReShim; the datetime model (naive local datetimes print timestamp+offset, UTC ones the timestamp) - each "
-             "expiry counterexample is replayed in a subprocess under a concrete TZ. Values <=3/<=4 chars, names 1-2 token chars."),
+             "expiry counterexample is replayed in a subprocess under a concrete TZ (fixed offset, or a generated POSIX DST rule: DST zones are a two-valued "
+             "uninterpreted offset function, |expires| <= 150 days). Values <=3/<=4 chars plus backslash shapes, names 1-2 token chars."),
     "C17": dict(
         technique="fork-on-branch symbolic execution of the real (Mutable)MultiMapping/QueryParams/FormData with z3 integer keys and values inside CPython's dict; one inductive step per operation against a list-of-pairs reference model",
         design_ref="DESIGN.md §4 C17",
         note="Trusted: z3, CPython dict/list, forksym. Pre-states are all pair lists up to the stated length (every reachable state is one); "
-             "keys/values are unbounded integers (code is type-agnostic). The QueryParams string round trip (urlencode/parse_qsl) is outside "
-             "the engine's reach and is not claimed."),
+             "keys/values are unbounded integers (code is type-agnostic); None values, sibling mappings and the caller's list are checked for <=3 pairs. "
+             "QueryParams(str(q)) == q over symbolic texts (<=3 chars, <=3 pairs) with urlencode/parse_qsl unmodified; 999..5000 pairs as a concrete recipe."),
     "C19": dict(
         technique="fork-on-branch symbolic execution of the real SSE encoder over symbolic Unicode text, decoded by a symbolically executed WHATWG event-stream parser; equality decided by z3",
         design_ref="DESIGN.md §4 C19",
         note="Trusted: z3, CPython codecs, forksym; the WHATWG parser oracle written in the harness. Symbolic characters cross the encoder's "
              "f-strings as placeholders of the same encoding class (ASCII / non-ASCII), which is sound while the encoder only concatenates and "
-             "encodes them. Bounds: data <=3/<=5 chars, name/id <=2/<=3; charsets utf-8 and latin-1."),
+             "encodes them. Bounds: data <=3/<=5 chars plus 12- and 300-line shapes, name/id <=2/<=3; charsets utf-8 and latin-1; ASGI streams with a "
+             "producer idling symbolic ticks (0..3 pings in between)."),
     "C03": dict(
         technique="fork-on-branch symbolic execution of the real parse_range with z3 (unbounded LIA integers; ReShim-interpreted regex over symbolic Latin-1 chars)",
         design_ref="DESIGN.md §4 C03",
         note="Trusted: z3, CPython, the forksym proxies and ReShim (validated on every path against the unshimmed "
              "function). Layer ints assumes syntactically well-formed range sets (<=3/<=4 specs) with unbounded values; "
-             "text layers bound the header length. Environment stubs are listed in the evidence file."),
+             "text layers bound the header length (plus zero-padded 21/40-character numbers and the interpreter digit limit off); a hand-over layer sends "
+             "symbolic header bytes through the real FileResponse of both stacks. Environment stubs are listed in the evidence file."),
 }
 
 CHECKS["C20"] = dict(
@@ -123,19 +139,22 @@ CHECKS["C20"] = dict(
     design_ref="DESIGN.md §4 C20",
     note="Trusted: z3, CPython/asyncio (ASGI on the virtual loop, thread pool = direct call), forksym. Inner applications are a recipe list (every response "
          "class, multi-chunk stream, 1-2 cookies, restart of start_response, raising app); status, a header value, cookie value and body bytes are symbolic "
-         "(<=2/<=3 chars); body sizes around the relay's 64 KiB block are enumerated. The ASGI relay's spool file is replaced by an in-memory buffer.")
+         "(<=2/<=3 chars); body sizes around the relay's 64 KiB block are enumerated; plain-WSGI list/tuple bodies, raw ASGI events with optional keys "
+         "omitted, a FileResponse behind a zero-copy server, two overlapping ASGI requests through one middleware instance.")
 
 CHECKS["C12"] = dict(
     technique="fork-on-branch symbolic execution of each untrusted-input entry point over short fully symbolic Latin-1 text / byte strings (exact symbolic UTF-8 decoding, URL-sensitive code points materialised for urllib); any exception other than 4xx HTTPException / ClientDisconnect / stream-consumed is a violation",
     design_ref="DESIGN.md §4 C12",
     note="Trusted: z3, CPython, forksym/ReShim. Inputs <=2/<=3 chars (<=3/<=4 body bytes). json.loads on decoded symbolic text is modelled as 'value or "
-         "JSONDecodeError'; request bodies are preset (assembly is C10). The Date accessor is not encoded; If-Modified-Since values of the conditional entry "
-         "are an enumerated recipe list (sampling, stated in the evidence). Range / router / static-file exceptions are reported by C03 / C08 / C07.")
+         "JSONDecodeError'; request bodies are preset (assembly is C10). Date-like headers (Date, If-Modified-Since) and length-triggered failures (digit "
+         "limits, NAME_MAX, recursion depth, >1000 fields, special codecs) are CONCRETE recipes (sampling, stated in the evidence). Range / router / "
+         "static-file input: slices of the C03 / C08 / C07 jobs are re-run and their 'unrelated exception escapes' verdicts kept.")
 CHECKS["C18"] = dict(
     technique="fork-on-branch symbolic execution of URL construction / replace / query helpers / repr with symbolic component text and ports: URL-sensitive code points are materialised by solver-decided forks, all others travel as placeholders through the unmodified urllib.parse",
     design_ref="DESIGN.md §4 C18",
     note="Trusted: z3, CPython incl. urllib.parse (runs unmodified), forksym. Component texts <=2/<=3 chars of printable ASCII (host chars from a small "
-         "alphabet), ports symbolic; schemes, presence of server/Host/root/query, 7 base-URL shapes and the replaced subsets are enumerated. One known "
+         "alphabet), ports symbolic; schemes, presence of server/Host/root/query, 9 base-URL shapes (incl. empty port) and the replaced subsets are "
+         "enumerated; repr with invalid ports; helper calls after earlier helper calls. One known "
          "finding (decoded '?'/'#' in the path) is listed in known_findings.json.")
 
 NOT_YET = {}  # pid -> reason (filled while the framework is being built)
